@@ -183,9 +183,17 @@ def run_harness(ctx, scenarios, tag, race=False):
                                  env={"VERIF_IN": ip, "VERIF_OUT": op, "VERIF_WORKERS": 6},
                                  tag="go_" + tag, race=race, timeout=1500)
     rows = ctx.read_ndjson(op)
+    raced = False
     if "DATA RACE" in text:
-        raise vlib.Inconclusive("race detector fired in the pledge harness run:\n" + text[-3000:])
-    if rc != 0 or not rows or not rows[0].get("summary") or len(rows) - 1 != len(scenarios):
+        if "pledge.(*juror).verdict" in text:
+            raced = True
+            # uniqueness rests on a juror deciding one request at a time (j.mu)
+            i = text.index("DATA RACE")
+            ctx.report("C11 juror verdicts race on the approvals of one juror",
+                       "the race detector reports two concurrent juror.verdict calls touching shared state", {"race": text[i:i + 2500]})
+        else:
+            raise vlib.Inconclusive("race detector fired in the pledge harness run:\n" + text[-3000:])
+    if (rc != 0 and not raced) or not rows or not rows[0].get("summary") or len(rows) - 1 != len(scenarios):
         raise vlib.Inconclusive("pledge harness failed rc=%s:\n%s" % (rc, text[-2500:]))
     return rows[1:], wall
 
@@ -442,6 +450,7 @@ def judge(ctx, scenarios, rows, tag, maxprop, stats):
                 stats["ev_rejected_verdict"] = stats.get("ev_rejected_verdict", 0) + 1
         if sc.get("rt"):
             stats["rt_scenarios"] = stats.get("rt_scenarios", 0) + 1
+        stats["concurrent_pairs"] = stats.get("concurrent_pairs", 0) + row.get("stats", {}).get("pair", 0)
         if len(ctx.violations) >= 8:
             break       # enough evidence; every further scenario costs a TLC run
         dups = duplicates(sc, row)
@@ -627,8 +636,9 @@ def run(ctx):
     # 3. run ---------------------------------------------------------------------------
     walls = {}
     rows_d, walls["directed"] = run_harness(ctx, directed, "directed")
-    rows_s, walls["script"] = run_harness(ctx, scenarios, "script", race=thorough)
-    rows_f, walls["free"] = run_harness(ctx, free, "free", race=thorough)
+    race = thorough or bool(os.environ.get("VERIF_RACE"))
+    rows_s, walls["script"] = run_harness(ctx, scenarios, "script", race=race)
+    rows_f, walls["free"] = run_harness(ctx, free, "free", race=race)
 
     # the directed 5-member schedules must be executed to the end for their verdict to mean anything
     incomplete = ["%s: %s" % (sc["id"], row.get("stalled") or row.get("diverged"))
@@ -660,7 +670,7 @@ def run(ctx):
         if stats.get("unvalidated"):
             raise vlib.Inconclusive("%d traces not validated" % stats["unvalidated"])
         need = ["ev_deliver", "ev_lost", "ev_fail", "ev_timeout", "ev_late", "ev_retry", "ev_giveup", "ev_admitted",
-                "ev_rejected_verdict", "rt_scenarios"]
+                "ev_rejected_verdict", "rt_scenarios", "concurrent_pairs"]
         missing = [k for k in need if not stats.get(k)]
         if missing:
             raise vlib.Inconclusive("vacuous run: never exercised %s" % missing)
